@@ -377,6 +377,57 @@ def run(tier="quick", seed=0):
                 samples.append(describe(w, h, torus, dl, dc, [{"source": list(s), "sinks": [list(c) for c in k]} for s, k, _ in spec], radius, sd))
                 samples[-1]["routed"] = res is not None
 
+        # ======================= (iii) large nets with a small radius ===============================
+        # (the router looks for the nearest tree node in concentric hexagons only when the tree has more than three times as
+        #  many nodes as the search disc: 22 nodes for radius 1, 58 for radius 2, 112 for radius 3 - never reached on <= 6x6)
+        n_large = 80 if not thorough else 800
+        DISC = {1: 7, 2: 19, 3: 37}
+        for i in range(n_large):
+            radius = (1, 2, 2, 3)[i % 4]
+            need = 3 * DISC[radius] + 1                     # tree nodes from which the hexagon search is used
+            w, h = rng.choice({1: [(6, 6), (7, 5), (8, 8)], 2: [(9, 9), (10, 8), (12, 7)], 3: [(12, 12), (13, 11)]}[radius])
+            torus = rng.random() < .5
+            chips = [(x, y) for x in range(w) for y in range(h)]
+            base_dead = frozenset() if torus else frozenset(_mesh_dead(w, h))
+            dl = frozenset()
+            if i % 5 == 4:
+                all_links = [(x, y, d) for (x, y) in chips for d in DV if (x, y, d) not in base_dead]
+                dl = frozenset(rng.sample(all_links, rng.randint(1, 4)))
+            src = rng.choice(chips)
+            near = sorted(chips, key=lambda c: (max(abs(c[0] - src[0]), abs(c[1] - src[1]), abs((c[0] - src[0]) - (c[1] - src[1]))), rng.random()))
+            n_core = min(len(chips) - 6, need + rng.randint(0, 8))
+            core = near[:n_core]                            # a compact blob of sinks around the source: the tree gets big first
+            if rng.random() < .3:
+                rng.shuffle(core)
+            far = [c for c in chips if c not in set(core)]
+            late = []
+            for _ in range(rng.randint(2, 6)):
+                # a far sink, then a second one a few hops from it, then a chip in between (which the branch to the
+                # second may already pass through), in this order or shuffled
+                a0 = rng.choice(far)
+                d1, d2 = rng.choice(list(DV.values())), rng.choice(list(DV.values()))
+                steps = [d1] * rng.randint(1, 2) + [d2] * rng.randint(0, 1)
+                pts, cur_ = [a0], a0
+                for dx, dy in steps:
+                    cur_ = ((cur_[0] + dx) % w, (cur_[1] + dy) % h) if torus else (cur_[0] + dx, cur_[1] + dy)
+                    if not (0 <= cur_[0] < w and 0 <= cur_[1] < h):
+                        break
+                    pts.append(cur_)
+                trio = [pts[0], pts[-1]] + pts[1:-1]
+                if rng.random() < .25:
+                    rng.shuffle(trio)
+                late.extend(trio)
+            seen_, sinks = set(), []
+            for c in core + late:
+                if c not in seen_ or rng.random() < .1:     # (now and then a sink chip is listed twice)
+                    sinks.append(c)
+                    seen_.add(c)
+            sd = rng.randint(0, 10 ** 6)
+            spec = [(src, sinks, 0)]
+            evaluate(w, h, torus, base_dead, dl, frozenset(), spec, radius, sd, i % 4)
+            done_random += 1
+            st["nontrivial"] += 1
+
         # ======================= minimise one representative failing input per clause ============
         def still(clause, case):
             last["quiet"] = True
@@ -427,7 +478,7 @@ def run(tier="quick", seed=0):
                     "the source as its own sink; sink flavours one core / two cores / RouteEndpointConstraint / no allocation rotate); radius 0,1,20; random.seed values %s; "
                     "fault families relative to the fault-free tree T of the same (net, radius, seed): L1 every single dead directed link with an end on a chip of T, C1 every single "
                     "dead chip hosting no vertex, CL every dead chip on T + one near dead link, L2 every pair of dead near links with >= 1 on T, L3 every triple with >= 2 on T; %s. "
-                    "(ii) %d seeded cases: machines up to 6x6, 1-3 nets of fan-out 1..9, directed dead-link density 0..85%%, 0-3 dead chips, radius 0/1/2/20. "
+                    "(ii) %d seeded cases: machines up to 6x6, 1-3 nets of fan-out 1..9, directed dead-link density 0..85%%, 0-3 dead chips, radius 0/1/2/20; of these the last %d are large nets with a small radius (radius 1 on 6x6 / 7x5 / 8x8, radius 2 on 9x9 / 10x8 / 12x7, radius 3 on 12x12 / 13x11, mesh and torus, every fifth with 1-4 dead links): first a blob of sinks around the source large enough (3 x |search disc| + 1 .. + 9 chips) that the concentric-hexagon search for the nearest tree node is the branch taken, then 2-6 groups of late sinks outside it: a far chip, a chip one to three hops from it, and the chips in between. "
                     "Non-trivial = the tree has at least one hop and (faulted systematic cases) a fault lies on T or the family is CL/L2/L3 / (sample) any fault present; "
                     "systematic cases are distinct by construction, sampled cases de-duplicated by hash. One representative failing input per clause is minimised greedily "
                     "(drop nets, sinks, dead chips, dead links while the clause persists). "
@@ -436,8 +487,8 @@ def run(tier="quick", seed=0):
                     "directed working links decides whether MachineHasDisconnectedSubregion was permitted; any other exception is a violation."
                     % ("0..4 (<= 1 sink), 0..2 (2 sinks), one rotating (3 sinks)" if thorough else "0..1 (<= 1 sink), one rotating (radius, seed) for 2- and 3-sink nets",
                        "all families for all nets (L3 for <= 2 sinks)" if thorough else "1-sink nets: all families; 2-sink nets: L1 C1 L2; 3-sink nets: C1 and L1 on the links of T only",
-                       done_random),
-            "bound": "systematic: machines <= 3x3, <= 3 sinks, <= 3 dead directed links or one dead chip (+1 link); sample: machines <= 6x6, fan-out <= 9, <= 3 nets per call",
+                       done_random, n_large),
+            "bound": "systematic: machines <= 3x3, <= 3 sinks, <= 3 dead directed links or one dead chip (+1 link); sample: machines <= 6x6, fan-out <= 9, <= 3 nets per call; large nets: machines <= 11x11, one net",
             "exhaustive": False, "label": "bounded", "samples": samples, "violations": viol,
             "clause_counts": counts, "systematic_breakdown": breakdown, "systematic_evaluations": systematic, "sampled_evaluations": done_random,
             "repair_cases": st["repairs"], "permitted_failures": st["failed_ok"],
